@@ -29,8 +29,14 @@ fn blob_program(s: &mut Src) -> Program {
     let mut ops = Vec::new();
     let k = 1 + s.below(6);
     for _ in 0..k {
-        match s.weighted(&[6, 3, 1]) {
+        match s.weighted(&[6, 3, 1, 1]) {
             0 => ops.push(Op::Blob(gen::blob_spec(s))),
+            3 => {
+                // an extraction source that breaks down part way: that call fails, everything written afterwards must be intact
+                let spec = gen::blob_spec(s);
+                let after = if spec.len == 0 { 0 } else { s.below(spec.len as u64) as u32 };
+                ops.push(Op::BlobFailing { spec, after });
+            }
             1 => ops.push(Op::Image(gen::image_spec(s, 1))),
             _ => {
                 let o = GenOpts { max_values: 3000, density: 0, ..GenOpts::default() };
@@ -95,7 +101,7 @@ impl Check for C06 {
          Ok(len) and exactly the written bytes for every descriptor, each image's blob/mask descriptors lead to that image's data; for perturbed \
          descriptors Blob::new(offset, len') the result is Err or exactly len' bytes following the header; on files with damaged pages (1 in 4 \
          cases) every blob read of a generated sequence on one reader fails or returns exactly the written bytes; 1 in 4 blobs is fed from a \
-         source that returns short reads; blobs are also extracted into targets with limited room (error / Ok(0) / short writes when full, room \
+         source that returns short reads; 1 operation in 11 is an add_blob whose source breaks down part way (the call must fail, everything written before and after it must read back exactly); blobs are also extracted into targets with limited room (error / Ok(0) / short writes when full, room \
          0, len-1, len/2, len, len+1, ...): Ok(n) only if the target received all n = len written bytes, a failure hands over only a prefix, \
          and the next read on the same reader is exact; 15 enumerated big files (0.3 - 1 MB blob in front of an image and a last blob). Non-trivial: blob spanning >= 2 pages, \
          or ending within 4 bytes of a page end, or length 0, or perturbed descriptor, or limited target."
@@ -140,6 +146,9 @@ impl Check for C06 {
         }
         let bytes = h.bytes();
         let free = prog::free_blobs(p);
+        if p.ops.iter().any(|o| matches!(o, Op::BlobFailing { .. })) {
+            v.nt("blobs_written_after_a_failed_add_blob");
+        }
         for (b, (off, len)) in free.iter().zip(tr.blobs.iter()) {
             if *len != b.len as u64 {
                 v.fail(format!("add_blob returned length {len} for a blob of {} bytes", b.len));
